@@ -77,11 +77,12 @@ check('C10', 'other',
       'threads are not covered by this family at all.',
       'Bounds: sequence length <= 3, 6 grammars x 8 variants. Schedules (threads) N/A.',
       'bounded history enumeration against fresh-process references (labelled bounded)', '3/C10')
-check('C12', 'other',
-      'Bounded stand-in: exhaustive over all strings on {letter, space, LF, CR} up to the stated length x every offset for TextLines and both Buffer cursors against an '
-      'independent line splitter; parseinfo of dict ASTs and model nodes against an independent recomputation. The proof of build_line_cache (loop invariants over arrays) is planned in DESIGN 3/C12.',
-      'Bound: text length (quick <= 7). lineinfo(len) after a trailing line break is a known finding pinned by a repository test.',
-      'bounded exhaustive contract checking (labelled bounded)', '3/C12')
+check('C12', 'proof',
+      'Proved for all texts (no bound): PosLine.build_line_cache builds, for every offset p < len, the entry (start of the line containing p, its number, its length) and for p = len the '
+      'unterminated last line or a new empty line, with both loop invariants checked over an array encoding; lineat/poscol are index-safe for every offset 0..len including empty text. '
+      'Bounded (not counted): all strings over {letter, space, LF, CR} up to the stated length x all offsets for TextLines and both Buffer cursors, parseinfo of ASTs and nodes.',
+      'Trusted: pyvc, z3; lines as produced by str.splitlines(True) (non-empty pieces, the precondition); lineinfo(len) after a trailing line break is a known finding pinned by a repository test.',
+      'contract-based deductive verification (pyvc: nested loop invariants over arrays) + bounded exhaustive runs', '3/C12')
 check('C17', 'proof',
       'Proved for ALL names and values (symbolic): the builtin filter is_unsafe_builtin_entry rejects every name the property forbids (open, eval, exec, compile, input, exit, quit, '
       'getattr/setattr/delattr, globals/locals/vars, ... and every underscore name); for an arbitrary AST node the body of the checking loop completes only for nodes without raise/try, '
